@@ -5,6 +5,7 @@ import (
 	"errors"
 	"reflect"
 	"runtime"
+	"strings"
 	"sync"
 
 	"github.com/tencent/goom/internal/bytecode"
@@ -79,9 +80,56 @@ func (p *patch) unsafePatchValue() error {
 		innerPointer, err := bytecode.GetInnerFunc(64, originPointer)
 		if err == nil && innerPointer != 0 {
 			p.originPtr = innerPointer
+			p.adaptToShapeFunc(funcName)
 		}
 	}
 	return p.unsafePatchPtr()
+}
+
+// adaptToShapeFunc 泛型函数实际被 patch 的是 shape 函数体, 它比实例化后的函数多一个隐藏的字典参数
+// (函数: 第一个参数; 方法: 紧跟在接收者之后), 因此代理函数需要包一层带字典参数的适配函数, 否则回调看到的参数会整体错位。
+func (p *patch) adaptToShapeFunc(funcName string) {
+	if strings.HasSuffix(funcName, "-fm") {
+		return
+	}
+	dictPos := 1
+	if strings.HasSuffix(funcName, "]") {
+		// pkg.Func[...] 是函数, pkg.(*Type[...]).Method 是方法
+		dictPos = 0
+	}
+	replacement := p.replacementValue
+	typ := replacement.Type()
+	if dictPos > typ.NumIn() {
+		return
+	}
+	ins := make([]reflect.Type, 0, typ.NumIn()+1)
+	for i := 0; i < typ.NumIn(); i++ {
+		if i == dictPos {
+			ins = append(ins, reflect.TypeOf(uintptr(0)))
+		}
+		ins = append(ins, typ.In(i))
+	}
+	if dictPos == typ.NumIn() {
+		ins = append(ins, reflect.TypeOf(uintptr(0)))
+	}
+	if typ.IsVariadic() && dictPos == typ.NumIn() {
+		return
+	}
+	outs := make([]reflect.Type, 0, typ.NumOut())
+	for i := 0; i < typ.NumOut(); i++ {
+		outs = append(outs, typ.Out(i))
+	}
+	adapter := reflect.MakeFunc(reflect.FuncOf(ins, outs, typ.IsVariadic()), func(args []reflect.Value) []reflect.Value {
+		real := make([]reflect.Value, 0, len(args)-1)
+		real = append(real, args[:dictPos]...)
+		real = append(real, args[dictPos+1:]...)
+		if typ.IsVariadic() {
+			return replacement.CallSlice(real)
+		}
+		return replacement.Call(real)
+	})
+	p.replacement = adapter.Interface()
+	p.replacementValue = adapter
 }
 
 // unsafePatchPtr 不做类型检查
